@@ -30,9 +30,9 @@ import (
 )
 
 type exprSite struct {
-	name   string // Lean def
-	fn     string // "Recv.name" or "name"
-	kind   string // "cond": if-condition containing anchor; "assign": RHS of `anchor = …` / `anchor := …`; "arg": first argument of the call `anchor(…)`;
+	name string // Lean def
+	fn   string // "Recv.name" or "name"
+	kind string // "cond": if-condition containing anchor; "assign": RHS of `anchor = …` / `anchor := …`; "arg": first argument of the call `anchor(…)`;
 	// "kv": value of the composite-literal field `anchor: …`; "ret": the single result of a `return` whose text contains anchor;
 	// "for": condition of a `for` containing anchor; "incr": RHS of `anchor += …`
 	// "return": as "ret"; "opassign": the NEW value `anchor + …` / `anchor - …` of `anchor += …` / `anchor -= …` (the operator is part of the def)
